@@ -30,10 +30,10 @@ SNAP_FIELDS = ("particle_type", "positions", "boxlength", "boxbounds", "realboun
 NL_PATHS = ("neighborlist.dat", "nl_a.dat", "nl_b.dat")
 VOR_PREFIXES = ("vor_a", "vor_b")
 OUT = {
-    "csv": ("out_a.csv", "out_b.csv", "out.v2.csv"),
-    "npy": ("res_a.npy", "res_b.npy", "res_c", "res.v2"),      # np.save appends .npy to a bare name
+    "csv": ("out_a.csv", "out_b.csv", "out.v2.csv", "outdir/out_a.csv"),
+    "npy": ("res_a.npy", "res_b.npy", "res_c", "res.v2", "outdir/res_a.npy"),      # np.save appends .npy to a bare name
     "txt": ("res_a.dat", "res_b.txt", "res_a.npy"),  # .dat / .txt switch on the text branch of boo_3d
-    "prefix": ("pre_a", "pre_b", ""),
+    "prefix": ("pre_a", "pre_b", "", "outdir/pre.v2"),
 }
 DUMPS = ("traj_a.atom", "traj_b.atom")
 
@@ -251,6 +251,7 @@ class World(WorldBase):
         self.edits = {}       # bundle root ('S3') -> ids of the client's in-place edits of its arrays, ascending
         self.server = None
         self.defaults = []
+        os.makedirs("outdir", exist_ok=True)        # some output names carry a directory
         if not replica:
             self.defaults = [(label, obj, copy.deepcopy(obj)) for label, obj in collect_defaults()]
             self.server = ReplicaServer(replica_handler, ctx.root)
